@@ -60,6 +60,9 @@ package txnprocessor
 //
 //@ func (*TxnProcessor).Process
 //@   requires p != nil && p.Providers != nil && p.OpStore != nil && p.unpublishedOperationStore != nil && p.OperationProtocolProvider != nil
+//   the operations are stamped from the transaction that was handed in, complete (not from a partial copy of it)
+//@   atcall processTxnOperations arg2 != nil && arg2.TransactionTime == sidetreeTxn.TransactionTime && arg2.TransactionNumber == sidetreeTxn.TransactionNumber && arg2.AnchorString == sidetreeTxn.AnchorString && arg2.Namespace == sidetreeTxn.Namespace && arg2.ProtocolVersion == sidetreeTxn.ProtocolVersion && arg2.CanonicalReference == sidetreeTxn.CanonicalReference && arg2.EquivalentReferences == sidetreeTxn.EquivalentReferences
+//@   atcall GetTxnOperations arg1 != nil && arg1.AnchorString == sidetreeTxn.AnchorString && arg1.Namespace == sidetreeTxn.Namespace && arg1.ProtocolVersion == sidetreeTxn.ProtocolVersion
 //@   ensures provFailed ==> puts == old(puts) && err != nil && r0 == 0
 //@   ensures puts <= old(puts) + 1
 //@   ensures !provFailed ==> puts == old(puts) + 1
